@@ -19,6 +19,13 @@ func constsObs() Val {
 	carv2.NewHeader(9).WithDataPadding(5).WriteTo(&hb)
 	var h1 bytes.Buffer
 	carv1.WriteHeader(&carv1.CarHeader{Roots: []cid.Cid{}, Version: 1}, &h1)
+	fh := carv2.NewHeader(9)
+	fh.Characteristics.SetFullyIndexed(true)
+	var fib bytes.Buffer
+	fh.WriteTo(&fib)
+	fi1 := fh.Characteristics.IsFullyIndexed()
+	fh.Characteristics.SetFullyIndexed(false)
+	fi2 := fh.Characteristics.IsFullyIndexed()
 	return VL{
 		VB(carv2.Pragma), VN(carv2.PragmaSize), VN(carv2.HeaderSize), VN(carv2.CharacteristicsSize),
 		VN(carv2.DefaultMaxAllowedHeaderSize), VN(carv2.DefaultMaxAllowedSectionSize),
@@ -29,7 +36,15 @@ func constsObs() Val {
 		VB(hb.Bytes()), VB(h1.Bytes()),
 		VN(uint64(varint.UvarintSize(127))), VN(uint64(varint.UvarintSize(128))), VN(uint64(varint.UvarintSize(16384))),
 		VN(uint64(index.NewInsertionIndex().Codec())),
+		VB(fib.Bytes()), VN(b2n(fi1)), VN(b2n(fi2)),
 	}
+}
+
+func b2n(b bool) uint64 {
+	if b {
+		return 1
+	}
+	return 0
 }
 
 func init() {
